@@ -160,6 +160,22 @@ Next ==
 Spec == Init /\ [][Next]_ivars
 
 OneCopy == \A x, y \in LiveSlots : x[1] = y[1] => x = y
+(* why reusing the cache is sound: a handle whose tag equals the highest generation knows   *)
+(* the slot of every live document - every commit or compaction that creates or moves a     *)
+(* live document raises the highest generation, and the committing handle refreshes its own *)
+(* cache.  A deletion-only commit of another handle does not raise it: the cache may then   *)
+(* still hold entries for documents that are gone, but each of them names an existing slot  *)
+(* that already carries a tombstone, so marking it again is harmless.                        *)
+SlotDead(sl) == \E i \in DOMAIN segs : segs[i].sid = sl[1] /\ sl[2] \in DOMAIN segs[i].docs /\ sl[2] \in segs[i].deleted
+CacheSound == \A h \in HandleSet :
+                (hstate[h].alive /\ hstate[h].tag = MaxGen) =>
+                   /\ \A id \in DOMAIN LoadLive : id \in DOMAIN hstate[h].cache /\ hstate[h].cache[id] = LoadLive[id]
+                   /\ \A id \in (DOMAIN hstate[h].cache) \ DOMAIN LoadLive : SlotDead(hstate[h].cache[id])
+TagBound == \A h \in HandleSet : hstate[h].alive => hstate[h].tag <= MaxGen
+SidsUnique == \A i, j \in DOMAIN segs : segs[i].sid = segs[j].sid => i = j
+GensUnique == \A i, j \in DOMAIN segs : segs[i].gen = segs[j].gen => i = j
+(* the highest generation never decreases (action property) *)
+GenMonotone == [][LET m == MaxGen IN m <= MaxGen']_ivars
 RefinesCore == OneCopy => Contents = abs
 (* same as OneCopy /\ RefinesCore, but prints the call history of the violating state first *)
 RefinesOrWitness == (OneCopy /\ Contents = abs) \/ (PrintT(<<"CASE", ToJson([ops |-> hist])>>) /\ FALSE)
